@@ -11,6 +11,67 @@ verus! {
 //@include common/pyramid_abs.vrs
 //@include common/source_abs.vrs
 
+
+// ---- stand-ins for the per-cell stream (R6/R11) ----------------------------------------------------------------------
+impl Clone for Blob { fn clone(&self) -> (r: Self) ensures r@ == self@ { Blob { v: self.v.clone() } } }
+#[verifier::opaque]
+pub open spec fn flat_sub(tiles: Seq<Option<(TileCoord3, Blob)>>, v: Seq<(TileCoord3, Blob)>) -> bool {
+	forall|i: int| #![trigger v[i]] 0 <= i < v.len() ==> exists|k: int| 0 <= k < tiles.len() && #[trigger] tiles[k] == Some(v[i])
+}
+#[verifier::opaque]
+pub open spec fn flat_sup(tiles: Seq<Option<(TileCoord3, Blob)>>, v: Seq<(TileCoord3, Blob)>) -> bool {
+	forall|k: int| 0 <= k < tiles.len() && (#[trigger] tiles[k]) is Some ==> exists|i: int| 0 <= i < v.len() && tiles[k] == Some(#[trigger] v[i])
+}
+// v holds exactly the Some entries of tiles
+pub open spec fn flat_rel(tiles: Seq<Option<(TileCoord3, Blob)>>, v: Seq<(TileCoord3, Blob)>) -> bool { flat_sub(tiles, v) && flat_sup(tiles, v) }
+pub open spec fn vec_rel(v: Seq<(TileCoord3, Blob)>, s: TileStream) -> bool {
+	forall|c: TileCoord3, b: Seq<u8>| s.items().contains((c, b)) <==> exists|i: int| 0 <= i < v.len() && (#[trigger] v[i]).0 == c && v[i].1@ == b
+}
+// trusted (tile_stream.rs): for_each_sync visits every item of the stream exactly once, one after the other, in some order
+#[verifier::external_body]
+pub struct ItemIter { }
+impl ItemIter {
+	pub uninterp spec fn seq(&self) -> Seq<(TileCoord3, Seq<u8>)>;
+	pub uninterp spec fn pos(&self) -> int;
+	#[verifier::external_body]
+	pub fn next(&mut self) -> (r: Option<(TileCoord3, Blob)>)
+		ensures final(self).seq() == old(self).seq(), 0 <= final(self).pos() <= final(self).seq().len(),
+			match r {
+				Some(it) => old(self).pos() < old(self).seq().len() && (it.0, it.1@) == old(self).seq()[old(self).pos()] && final(self).pos() == old(self).pos() + 1,
+				None => old(self).pos() >= old(self).seq().len() && final(self).pos() == old(self).pos(),
+			}
+	{ unimplemented!() }
+}
+impl TileStream {
+	#[verifier::external_body]
+	pub fn into_item_iter(self) -> (r: ItemIter)
+		ensures r.pos() == 0, forall|c: TileCoord3, b: Seq<u8>| r.seq().contains((c, b)) <==> self.items().contains((c, b))
+	{ unimplemented!() }
+	// trusted (tile_stream.rs): from_vec streams exactly the elements of the vector
+	#[verifier::external_body]
+	pub fn from_vec(vec: Vec<(TileCoord3, Blob)>) -> (r: TileStream)
+		ensures vec_rel(vec@, r)
+	{ unimplemented!() }
+}
+// R6: `tiles.into_iter().flatten().collect()` -> vflatten(tiles): the Some entries, in order (core::iter::Flatten over Option, trusted)
+#[verifier::external_body]
+pub fn vflatten(tiles: Vec<Option<(TileCoord3, Blob)>>) -> (r: Vec<(TileCoord3, Blob)>)
+	ensures flat_rel(tiles@, r@)
+{ unimplemented!() }
+// assumption A-overlay-1: a tile of a source decodes under the compression its source declares, i.e. `recompress` does not
+// fail inside the stream (the real code panics on `.unwrap()` there; the single-tile lookup returns Err instead)
+#[verifier::external_body]
+pub fn vcodec_ok(r: Result<Blob, VErr>) -> (b: Blob) ensures r is Ok, b == r.unwrap() { unimplemented!() }
+
+// a coordinate of a box is determined by its row-major index
+pub proof fn lemma_index_unique(b: TileBBox, i: int)
+	requires b.wf(), 0 <= i < b.w() * b.h()
+	ensures forall|x: int, y: int| #![trigger b.has(x, y)] b.has(x, y) && (y - b.y_min) * b.w() + (x - b.x_min) == i ==> x == b.x_min + i % b.w() && y == b.y_min + i / b.w()
+{
+	assert forall|x: int, y: int| #![trigger b.has(x, y)] b.has(x, y) && (y - b.y_min) * b.w() + (x - b.x_min) == i implies x == b.x_min + i % b.w() && y == b.y_min + i / b.w() by {
+		lemma_coord_index_inverse(b, x, y);
+	}
+}
 #[verifier::external_body] pub struct VPLNode { }
 #[verifier::external_body] pub struct PipelineFactory { }
 // R9 stand-in: an unconstrained value of the declared type
@@ -76,6 +137,201 @@ impl Operation {
 		ensures r is Ok ==> self.is_overlay_tile(*coord, match r.unwrap() { Some(b) => Some(b@), None => None })
 //@loop 1 iter=it
 			invariant forall|j: int| 0 <= j < it.index@ ==> (#[trigger] self.sources@[j]).tile_at(*coord) is None,
+//@end
+
+	// ---- the per-cell stream of get_tile_stream (C02, C08): the closure that get_tile_stream maps over iter_bbox_grid(32) ----
+	pub open spec fn coord_of(bbox: TileBBox, i: int) -> TileCoord3 {
+		TileCoord3 { x: (bbox.x_min + i % bbox.w()) as u32, y: (bbox.y_min + i / bbox.w()) as u32, z: bbox.level }
+	}
+	// the first k sources decide the tile at c to be b
+	pub open spec fn first_of(&self, k: int, c: TileCoord3, b: Seq<u8>) -> bool {
+		exists|i: int| 0 <= i < k
+			&& (forall|j: int| 0 <= j < i ==> (#[trigger] self.sources@[j]).tile_at(c) is None)
+			&& (#[trigger] self.sources@[i]).tile_at(c) is Some
+			&& decode(self.declared(), b) == decode(self.sources@[i].params().tile_compression, self.sources@[i].tile_at(c).unwrap())
+	}
+	pub open spec fn none_of(&self, k: int, c: TileCoord3) -> bool {
+		forall|j: int| 0 <= j < k ==> (#[trigger] self.sources@[j]).tile_at(c) is None
+	}
+	pub open spec fn slots_ok(&self, bbox: TileBBox, tiles: Seq<Option<(TileCoord3, Blob)>>, k: int) -> bool {
+		tiles.len() == bbox.w() * bbox.h()
+		&& forall|i: int| 0 <= i < tiles.len() ==> match #[trigger] tiles[i] {
+			Some(e) => e.0 == Self::coord_of(bbox, i) && self.first_of(k, e.0, e.1@),
+			None => self.none_of(k, Self::coord_of(bbox, i)),
+		}
+	}
+
+	// the slots while the stream of source k (requested for the box `bl` of the still empty slots) is being consumed:
+	// filled slots are decided by the first k + 1 sources; an empty slot has no tile in the first k sources, lies in `bl`,
+	// and its coordinate has not been delivered yet
+	pub open spec fn slots_mid(&self, bbox: TileBBox, tiles: Seq<Option<(TileCoord3, Blob)>>, k: int, bl: TileBBox, s: Seq<(TileCoord3, Seq<u8>)>, pos: int) -> bool {
+		tiles.len() == bbox.w() * bbox.h()
+		&& forall|i: int| 0 <= i < tiles.len() ==> match #[trigger] tiles[i] {
+			Some(e) => e.0 == Self::coord_of(bbox, i) && self.first_of(k + 1, e.0, e.1@),
+			None => self.none_of(k, Self::coord_of(bbox, i)) && bl.has3(Self::coord_of(bbox, i))
+				&& forall|q: int| 0 <= q < pos ==> (#[trigger] s[q]).0 != Self::coord_of(bbox, i),
+		}
+	}
+	pub open spec fn cell_post(&self, bbox: TileBBox, r: TileStream) -> bool {
+		// every delivered tile lies in the cell and is what the lookup delivers: first source in list order, declared compression
+		&&& forall|c: TileCoord3, b: Seq<u8>| #[trigger] r.items().contains((c, b)) ==> bbox.has3(c) && self.is_overlay_tile(c, Some(b))
+		// every coordinate of the cell for which some source has a tile is delivered
+		&&& forall|c: TileCoord3| #[trigger] bbox.has3(c) && !self.is_overlay_tile(c, None) ==> exists|b: Seq<u8>| #[trigger] r.items().contains((c, b))
+		// at most one tile per coordinate
+		&&& forall|c: TileCoord3, b1: Seq<u8>, b2: Seq<u8>| #[trigger] r.items().contains((c, b1)) && #[trigger] r.items().contains((c, b2)) ==> b1 == b2
+	}
+	pub proof fn lemma_first_mono(&self, bbox: TileBBox, tiles: Seq<Option<(TileCoord3, Blob)>>, k: int)
+		requires self.slots_ok(bbox, tiles, k)
+		ensures forall|i: int| 0 <= i < tiles.len() && (#[trigger] tiles[i]) is Some ==> self.first_of(k + 1, tiles[i].unwrap().0, tiles[i].unwrap().1@)
+	{
+		assert forall|i: int| 0 <= i < tiles.len() && (#[trigger] tiles[i]) is Some implies self.first_of(k + 1, tiles[i].unwrap().0, tiles[i].unwrap().1@) by {
+			let e = tiles[i].unwrap();
+			assert(self.first_of(k, e.0, e.1@));
+			let w = choose|w: int| 0 <= w < k
+				&& (forall|j: int| 0 <= j < w ==> (#[trigger] self.sources@[j]).tile_at(e.0) is None)
+				&& (#[trigger] self.sources@[w]).tile_at(e.0) is Some
+				&& decode(self.declared(), e.1@) == decode(self.sources@[w].params().tile_compression, self.sources@[w].tile_at(e.0).unwrap());
+			assert(0 <= w < k + 1);
+		}
+	}
+	pub proof fn lemma_stream_done(&self, bbox: TileBBox, tiles: Seq<Option<(TileCoord3, Blob)>>, k: int, bl: TileBBox, s: Seq<(TileCoord3, Seq<u8>)>, pos: int)
+		requires 0 <= k < self.sources@.len(), pos >= s.len(), self.slots_mid(bbox, tiles, k, bl, s, pos),
+			forall|c: TileCoord3, b: Seq<u8>| s.contains((c, b)) <==> (bl.has3(c) && self.sources@[k].tile_at(c) == Some(b)),
+		ensures self.slots_ok(bbox, tiles, k + 1)
+	{
+		assert forall|i: int| 0 <= i < tiles.len() && (#[trigger] tiles[i]) is None implies self.none_of(k + 1, Self::coord_of(bbox, i)) by {
+			let c = Self::coord_of(bbox, i);
+			if self.sources@[k].tile_at(c) is Some {
+				let t = self.sources@[k].tile_at(c).unwrap();
+				assert(s.contains((c, t)));
+				let q = choose|q: int| 0 <= q < s.len() && s[q] == (c, t);
+				assert(s[q].0 != c);
+			}
+		}
+	}
+	pub proof fn lemma_cell_final_1(&self, bbox: TileBBox, tiles: Seq<Option<(TileCoord3, Blob)>>, v: Seq<(TileCoord3, Blob)>, s: TileStream, c: TileCoord3, b: Seq<u8>)
+		requires bbox.wf(), self.slots_ok(bbox, tiles, self.sources@.len() as int), flat_rel(tiles, v), vec_rel(v, s), s.items().contains((c, b))
+		ensures bbox.has3(c) && self.is_overlay_tile(c, Some(b))
+	{
+		let n = self.sources@.len() as int;
+		reveal(flat_sub);
+		let i = choose|i: int| 0 <= i < v.len() && (#[trigger] v[i]).0 == c && v[i].1@ == b;
+		let k = choose|k: int| 0 <= k < tiles.len() && #[trigger] tiles[k] == Some(v[i]);
+		lemma_index_coord_inverse(bbox, k);
+		assert(tiles[k].unwrap().0 == Self::coord_of(bbox, k));
+		assert(self.first_of(n, c, b));
+	}
+	pub proof fn lemma_cell_final_2(&self, bbox: TileBBox, tiles: Seq<Option<(TileCoord3, Blob)>>, v: Seq<(TileCoord3, Blob)>, s: TileStream, c: TileCoord3)
+		requires bbox.wf(), self.slots_ok(bbox, tiles, self.sources@.len() as int), flat_rel(tiles, v), vec_rel(v, s), bbox.has3(c), !self.is_overlay_tile(c, None)
+		ensures exists|b: Seq<u8>| #[trigger] s.items().contains((c, b))
+	{
+		let n = self.sources@.len() as int;
+		reveal(flat_sup);
+		lemma_coord_index_inverse(bbox, c.x as int, c.y as int);
+		let k = (c.y - bbox.y_min) * bbox.w() + (c.x - bbox.x_min);
+		assert(Self::coord_of(bbox, k) == c);
+		if tiles[k] is None { assert(self.none_of(n, c)); assert(false); }
+		let e = tiles[k].unwrap();
+		let i = choose|i: int| 0 <= i < v.len() && tiles[k] == Some(#[trigger] v[i]);
+		assert(v[i].0 == c && v[i].1@ == e.1@);
+		assert(s.items().contains((c, e.1@)));
+	}
+	pub proof fn lemma_cell_final_3(&self, bbox: TileBBox, tiles: Seq<Option<(TileCoord3, Blob)>>, v: Seq<(TileCoord3, Blob)>, s: TileStream, c: TileCoord3, b1: Seq<u8>, b2: Seq<u8>)
+		requires bbox.wf(), self.slots_ok(bbox, tiles, self.sources@.len() as int), flat_rel(tiles, v), vec_rel(v, s), s.items().contains((c, b1)), s.items().contains((c, b2))
+		ensures b1 == b2
+	{
+		reveal(flat_sub);
+		let i1 = choose|i: int| 0 <= i < v.len() && (#[trigger] v[i]).0 == c && v[i].1@ == b1;
+		let i2 = choose|i: int| 0 <= i < v.len() && (#[trigger] v[i]).0 == c && v[i].1@ == b2;
+		let k1 = choose|k: int| 0 <= k < tiles.len() && #[trigger] tiles[k] == Some(v[i1]);
+		let k2 = choose|k: int| 0 <= k < tiles.len() && #[trigger] tiles[k] == Some(v[i2]);
+		lemma_index_coord_inverse(bbox, k1); lemma_index_coord_inverse(bbox, k2);
+		assert(tiles[k1].unwrap().0 == Self::coord_of(bbox, k1));
+		assert(tiles[k2].unwrap().0 == Self::coord_of(bbox, k2));
+		assert(k1 == k2);
+	}
+	pub proof fn lemma_cell_final(&self, bbox: TileBBox, tiles: Seq<Option<(TileCoord3, Blob)>>, v: Seq<(TileCoord3, Blob)>, s: TileStream)
+		requires bbox.wf(), self.slots_ok(bbox, tiles, self.sources@.len() as int), flat_rel(tiles, v), vec_rel(v, s)
+		ensures self.cell_post(bbox, s)
+	{
+		assert forall|c: TileCoord3, b: Seq<u8>| #[trigger] s.items().contains((c, b)) implies bbox.has3(c) && self.is_overlay_tile(c, Some(b)) by { self.lemma_cell_final_1(bbox, tiles, v, s, c, b); }
+		assert forall|c: TileCoord3| #[trigger] bbox.has3(c) && !self.is_overlay_tile(c, None) implies exists|b: Seq<u8>| #[trigger] s.items().contains((c, b)) by { self.lemma_cell_final_2(bbox, tiles, v, s, c); }
+		assert forall|c: TileCoord3, b1: Seq<u8>, b2: Seq<u8>| #[trigger] s.items().contains((c, b1)) && #[trigger] s.items().contains((c, b2)) implies b1 == b2 by { self.lemma_cell_final_3(bbox, tiles, v, s, c, b1, b2); }
+	}
+	pub proof fn lemma_cell_final_all(&self, bbox: TileBBox, tiles: Seq<Option<(TileCoord3, Blob)>>)
+		requires bbox.wf(), self.slots_ok(bbox, tiles, self.sources@.len() as int)
+		ensures forall|v: Seq<(TileCoord3, Blob)>, s: TileStream| #![trigger flat_rel(tiles, v), vec_rel(v, s)] flat_rel(tiles, v) && vec_rel(v, s) ==> self.cell_post(bbox, s)
+	{
+		assert forall|v: Seq<(TileCoord3, Blob)>, s: TileStream| #![trigger flat_rel(tiles, v), vec_rel(v, s)] flat_rel(tiles, v) && vec_rel(v, s) implies self.cell_post(bbox, s) by {
+			self.lemma_cell_final(bbox, tiles, v, s);
+		}
+	}
+//@extract closure file="versatiles_pipeline/src/operations/read/from_overlayed.rs" scope="impl OperationTrait for Operation" name="get_tile_stream" head="move |bbox| async move" sig="pub fn cell_stream(&self, bbox: TileBBox) -> TileStream" pre="let output_compression" foreach="1"
+//@rewrite "for source in self.sources.iter() {" => "let mut vsrc_i: usize = 0; while vsrc_i < self.sources.len() { let source = &self.sources[vsrc_i]; vsrc_i += 1;" R7
+//@rewrite "for (index, t) in tiles.iter().enumerate() {" => "for index in 0..tiles.len() { let t = &tiles[index];" R7
+//@rewrite "blob = recompress(blob," => "blob = vcodec_ok(recompress(blob,"
+//@rewrite "output_compression).unwrap();" => "output_compression));"
+//@rewrite "tiles.into_iter().flatten().collect()" => "vflatten(tiles)"
+//@ret r
+//@spec
+		// a cell of iter_bbox_grid(32): at most 32 x 32 tiles (grid law: Kani unit tile_bbox_iter)
+		requires bbox.wf(), bbox.w() <= 32, bbox.h() <= 32,
+		ensures self.cell_post(bbox, r),
+//@start
+		proof { assert(bbox.w() * bbox.h() <= 1024) by (nonlinear_arith) requires 0 <= bbox.w() <= 32, 0 <= bbox.h() <= 32; }
+//@loop 1
+				invariant bbox.wf(), bbox.w() <= 32, bbox.h() <= 32, bbox.w() * bbox.h() <= 1024,
+					*output_compression == self.declared(),
+					vsrc_i <= self.sources@.len(),
+					self.slots_ok(bbox, tiles@, vsrc_i as int),
+				decreases self.sources@.len() - vsrc_i,
+//@loop 2
+					invariant bbox.wf(), bbox.w() * bbox.h() <= 1024, tiles@.len() == bbox.w() * bbox.h(),
+						bbox_left.wf(), bbox_left.same_frame(&bbox),
+						forall|a: int, b: int| bbox_left.has(a, b) ==> bbox.has(a, b),
+						forall|i: int| 0 <= i < index && (#[trigger] tiles@[i]) is None ==> bbox_left.has3(Self::coord_of(bbox, i)),
+//@loopstart 2
+						let ghost bl0 = bbox_left;
+						proof { lemma_index_unique(bbox, index as int); }
+//@loopend 2
+						proof { bl0.lemma_empty();
+							if !bl0.empty() { assert(bl0.has(bl0.x_min as int, bl0.y_min as int)); assert(bl0.has(bl0.x_max as int, bl0.y_max as int)); } }
+//@at "let mut vfe_iter"
+				let ghost bl = bbox_left;
+				let ghost k = vsrc_i as int - 1;
+				proof { self.lemma_first_mono(bbox, tiles@, k); }
+//@loop 3
+					invariant bbox.wf(), bbox.w() * bbox.h() <= 1024, *output_compression == self.declared(),
+						0 <= k < self.sources@.len(), *source == self.sources@[k],
+						0 <= vfe_iter.pos() <= vfe_iter.seq().len(),
+						forall|c: TileCoord3, b: Seq<u8>| vfe_iter.seq().contains((c, b)) <==> (bl.has3(c) && source.tile_at(c) == Some(b)),
+						forall|a: int, b: int| bl.has(a, b) ==> bbox.has(a, b),
+						bl.level == bbox.level,
+						self.slots_mid(bbox, tiles@, k, bl, vfe_iter.seq(), vfe_iter.pos()),
+					ensures vfe_iter.pos() >= vfe_iter.seq().len(),
+					decreases vfe_iter.seq().len() - vfe_iter.pos(),
+//@start
+		let ghost mut blob0: Seq<u8> = Seq::empty();
+//@at "let index ="
+						proof { blob0 = blob@;
+							assert(vfe_iter.seq()[vfe_iter.pos() - 1] == (coord, blob0));
+							assert(vfe_iter.seq().contains((coord, blob0))); }
+//@at "if tiles[index].is_none()"
+						proof { lemma_coord_index_inverse(bbox, coord.x as int, coord.y as int);
+							// the slot of a delivered tile is the slot of its coordinate in the cell
+							assert(Self::coord_of(bbox, index as int) == coord);
+							assert forall|i: int| 0 <= i < bbox.w() * bbox.h() && Self::coord_of(bbox, i) == coord implies i == index by { lemma_index_coord_inverse(bbox, i); } }
+//@after "tiles[index] = Some((coord, blob));"
+							proof { assert(self.first_of(k + 1, coord, blob@)) by {
+								assert(self.sources@[k].tile_at(coord) == Some(blob0)); } }
+//@at "continue;"
+					proof { self.lemma_first_mono(bbox, tiles@, vsrc_i as int - 1);
+						assert forall|i: int| 0 <= i < tiles@.len() implies (#[trigger] tiles@[i]) is Some by {
+							if tiles@[i] is None { assert(bbox_left.has3(Self::coord_of(bbox, i))); } } }
+//@loopend 1
+				proof { self.lemma_stream_done(bbox, tiles@, k, bl, vfe_iter.seq(), vfe_iter.pos()); }
+//@at "TileStream::from_vec(vflatten(tiles))"
+			proof { self.lemma_cell_final_all(bbox, tiles@); }
 //@end
 }
 } // verus!
